@@ -16,8 +16,9 @@ pub fn main(args: &[String]) -> i32 {
             println!("lossless: {:?}", crate::props::c01::lossless(&text, &tree));
             0
         }
+        Some("ty") => crate::oracle::tyws::tool_main(&args[1..]),
         _ => {
-            eprintln!("tools: parse");
+            eprintln!("tools: parse | ty <file.lua> [prelude.lua]");
             2
         }
     }
